@@ -350,3 +350,206 @@ Proof.
   intros Hwf H. pose proof (sc_algo_sound alts orders vo Hwf H) as Hw.
   destruct Hwf as (_ & Hno & _). eapply sc_witness_sound; eassumption.
 Qed.
+
+(* ============================================================================================== *)
+(* 6. a single-crossing profile embeds isometrically into the line                                 *)
+(* ============================================================================================== *)
+Definition embeds (orders : list (list N)) (pos : list N -> Z) : Prop :=
+  forall x y, In x orders -> In y orders -> Z.of_nat (ktd x y) = Z.abs (pos x - pos y).
+
+Lemma embeds_perm orders orders' pos : Permutation orders orders' -> embeds orders pos -> embeds orders' pos.
+Proof.
+  intros HP H x y Hx Hy. apply H; eapply Permutation_in; try eassumption; now apply Permutation_sym.
+Qed.
+
+Lemma sc_embeds alts orders : wf_profile alts orders -> SC alts orders -> exists pos, embeds orders pos.
+Proof.
+  intros (Hna & Hno & Hwf) (s & HP & Hs).
+  assert (Hwfs : Forall (fun o => Permutation alts o) s).
+  { rewrite Forall_forall in *. intros o Ho. apply Hwf. eapply Permutation_in; [apply Permutation_sym; eassumption|assumption]. }
+  enough (exists pos, embeds s pos) as (pos & Hpos).
+  { exists pos. eapply embeds_perm; [apply Permutation_sym; eassumption|assumption]. }
+  destruct s as [|c0 t].
+  - exists (fun _ => 0). intros x y [].
+  - exists (fun o => Z.of_nat (ktd c0 o)).
+    pose proof (proj1 (sc_seq_kt_triples alts (c0 :: t) Hna Hwfs) Hs) as Htr.
+    assert (Hw : forall o, In o (c0 :: t) -> Permutation alts o) by (rewrite Forall_forall in Hwfs; exact Hwfs).
+    assert (H0 : ktd c0 c0 = 0%nat) by (apply (ktd_refl alts Hna); apply Hw; now left).
+    intros x y Hx Hy. cbv beta.
+    destruct Hx as [<-|Hx]; [rewrite H0; lia|].
+    destruct Hy as [<-|Hy].
+    { rewrite H0, (ktd_sym alts Hna x c0) by (apply Hw; simpl; auto). lia. }
+    destruct (two_members x y t Hx Hy) as [->|[(l1 & l2 & l3 & E)|(l1 & l2 & l3 & E)]].
+    + rewrite (ktd_refl alts Hna y) by (apply Hw; now right). lia.
+    + pose proof (Htr [] c0 l1 x l2 y l3) as A. cbn [app] in A. rewrite <- E in A. specialize (A eq_refl). lia.
+    + pose proof (Htr [] c0 l1 y l2 x l3) as A. cbn [app] in A. rewrite <- E in A. specialize (A eq_refl).
+      rewrite (ktd_sym alts Hna x y) by (apply Hw; now right). lia.
+Qed.
+
+(* ============================================================================================== *)
+(* 7. the scoring loop on an embedded profile                                                      *)
+(* ============================================================================================== *)
+Section Embedded.
+Variable orders : list (list N).
+Variable pos : list N -> Z.
+Hypothesis Hemb : embeds orders pos.
+Variables v1 v2 : list N.
+Hypothesis Hv1 : In v1 orders.
+Hypothesis Hv2 : In v2 orders.
+Hypothesis Hlt : pos v1 < pos v2.
+
+Lemma scan_step o t sc : In o orders ->
+  scan v1 v2 (ktd v1 v2) (o :: t) sc = scan v1 v2 (ktd v1 v2) t (upd sc o (pos o - pos v1)).
+Proof.
+  intros Ho. cbn [scan].
+  pose proof (Hemb v1 o Hv1 Ho) as E1. pose proof (Hemb v2 o Hv2 Ho) as E2. pose proof (Hemb v1 v2 Hv1 Hv2) as Ek.
+  destruct (Nat.eqb_spec (ktd v1 o + ktd v2 o) (ktd v1 v2)) as [A|A].
+  { f_equal. f_equal. lia. }
+  destruct (Nat.eqb_spec (ktd v1 v2 + ktd v2 o) (ktd v1 o)) as [B|B].
+  { f_equal. f_equal. lia. }
+  destruct (Nat.eqb_spec (ktd v1 o + ktd v1 v2) (ktd v2 o)) as [C|C].
+  { f_equal. f_equal. lia. }
+  exfalso. lia.
+Qed.
+
+Lemma scan_ok rest : (forall o, In o rest -> In o orders) -> forall sc,
+  exists sc', scan v1 v2 (ktd v1 v2) rest sc = Some sc' /\
+              (forall o, In o rest -> lookup sc' o = pos o - pos v1) /\
+              (forall o, ~ In o rest -> lookup sc' o = lookup sc o).
+Proof.
+  induction rest as [|o t IH]; intros Hin sc.
+  - exists sc. split; [reflexivity|]. split; [intros o []|reflexivity].
+  - rewrite scan_step by (apply Hin; now left).
+    destruct (IH (fun o' Ho' => Hin o' (or_intror Ho')) (upd sc o (pos o - pos v1))) as (sc' & Hs & Hl & Hn).
+    exists sc'. split; [exact Hs|]. split.
+    + intros o' [<-|Ho']; [|now apply Hl].
+      destruct (in_dec order_eq_dec o t) as [Hi|Hi]; [now apply Hl|].
+      rewrite (Hn o Hi). apply lookup_upd_same.
+    + intros o' Ho'. rewrite Hn by (intros H; apply Ho'; now right).
+      apply lookup_upd_other. intros ->. apply Ho'. now left.
+Qed.
+
+(* a sequence of orders of the profile sorted by position passes the verification pass *)
+Lemma ordered_from_sorted f t : In f orders -> (forall y, In y t -> In y orders) ->
+  Forall (fun y => pos f < pos y) t -> StronglySorted (fun a b => pos a < pos b) t ->
+  ordered_check_from f t = true.
+Proof.
+  intros Hf. induction t as [|y t IH]; intros Hin Hall Hs; [reflexivity|].
+  destruct t as [|z t']; [reflexivity|].
+  rewrite ordered_check_from_cons2, andb_true_iff, Nat.eqb_eq.
+  inversion Hs as [|? ? Hs' Hyz]; subst. inversion Hall as [|? ? Hfy Hall']; subst.
+  split.
+  - assert (Hy : In y orders) by (apply Hin; now left).
+    assert (Hz : In z orders) by (apply Hin; right; now left).
+    pose proof (Hemb f y Hf Hy). pose proof (Hemb y z Hy Hz). pose proof (Hemb f z Hf Hz).
+    inversion Hyz as [|? ? Hyz' _]; subst. inversion Hall' as [|? ? Hfz _]; subst. lia.
+  - apply IH; try assumption. intros w Hw. apply Hin. now right.
+Qed.
+End Embedded.
+
+(* ============================================================================================== *)
+(* 8. completeness                                                                                 *)
+(* ============================================================================================== *)
+Lemma StronglySorted_impl_in {T} (R R' : T -> T -> Prop) l :
+  StronglySorted R l -> (forall a b, In a l -> In b l -> R a b -> R' a b) -> StronglySorted R' l.
+Proof.
+  induction 1 as [|x t Ht IH Hall]; intros Himp; constructor.
+  - apply IH. intros a b Ha Hb. apply Himp; now right.
+  - rewrite Forall_forall in *. intros y Hy. apply Himp; [now left|now right|now apply Hall].
+Qed.
+
+Lemma embeds_inj alts orders pos : wf_profile alts orders -> embeds orders pos ->
+  forall a b, In a orders -> In b orders -> pos a = pos b -> a = b.
+Proof.
+  intros (Hna & _ & Hwf) Hemb a b Ha Hb E. rewrite Forall_forall in Hwf.
+  apply (ktd_zero alts Hna a b); [now apply Hwf|now apply Hwf|].
+  pose proof (Hemb a b Ha Hb). lia.
+Qed.
+
+(* any arrangement of the profile that is sorted by a key equal to the position up to a shift
+   passes the verification pass *)
+Lemma sorted_ordered_check alts orders pos (key : list N -> Z) shift vo :
+  wf_profile alts orders -> embeds orders pos ->
+  (forall o, In o orders -> key o = pos o - shift) ->
+  Permutation orders vo -> StronglySorted (fun a b => key a <= key b) vo ->
+  ordered_check vo = true.
+Proof.
+  intros Hwf Hemb Hkey HP Hs.
+  assert (Hin : forall o, In o vo -> In o orders).
+  { intros o Ho. eapply Permutation_in; [apply Permutation_sym; eassumption|assumption]. }
+  assert (Hnd : NoDup vo) by (destruct Hwf as (_ & Hno & _); eapply Permutation_NoDup; eassumption).
+  apply sorted_strict in Hs; [|assumption|].
+  - apply (StronglySorted_impl_in _ (fun a b => pos a < pos b)) in Hs.
+    + destruct vo as [|f t]; [reflexivity|]. cbn [ordered_check].
+      inversion Hs as [|? ? Hst Hall]; subst.
+      apply (ordered_from_sorted orders pos Hemb); try assumption.
+      * apply Hin. now left.
+      * intros y Hy. apply Hin. now right.
+    + intros a b Ha Hb. rewrite (Hkey a), (Hkey b) by now apply Hin. lia.
+  - intros a b Ha Hb E. apply (embeds_inj alts orders pos Hwf Hemb); try now apply Hin.
+    rewrite (Hkey a), (Hkey b) in E by now apply Hin. lia.
+Qed.
+
+Lemma sc_algo_complete_oriented alts v1 v2 rest pos :
+  wf_profile alts (v1 :: v2 :: rest) -> embeds (v1 :: v2 :: rest) pos -> pos v1 < pos v2 ->
+  exists vo, sc_algo alts (v1 :: v2 :: rest) = Ok (Some vo).
+Proof.
+  intros Hwf Hemb Hlt. set (orders := v1 :: v2 :: rest) in *.
+  assert (Hv1 : In v1 orders) by (now left).
+  assert (Hv2 : In v2 orders) by (right; now left).
+  destruct Hwf as (Hna & Hno & Hwfo). assert (Hwf : wf_profile alts orders) by (repeat split; assumption).
+  destruct (scan_ok orders pos Hemb v1 v2 Hv1 Hv2 Hlt rest (fun o Ho => or_intror (or_intror Ho))
+                    [(v2, Z.of_nat (ktd v1 v2))]) as (sc & Hscan & Hl & Hn).
+  assert (Hv12 : ~ In v1 (v2 :: rest)) by (inversion Hno; assumption).
+  assert (Hv2r : ~ In v2 rest) by (inversion Hno as [|? ? _ H2]; inversion H2; assumption).
+  assert (Hkey : forall o, In o orders -> lookup sc o = pos o - pos v1).
+  { intros o [<-|[<-|Ho]].
+    - rewrite Hn by (intros H; apply Hv12; now right). simpl.
+      destruct (order_eqb v2 v1) eqn:E; [apply order_eqb_eq in E; exfalso; apply Hv12; now left|lia].
+    - rewrite Hn by assumption. simpl. rewrite (proj2 (order_eqb_eq v2 v2) eq_refl).
+      pose proof (Hemb v1 v2 Hv1 Hv2). lia.
+    - now apply Hl. }
+  unfold sc_algo. unfold orders. fold orders. rewrite Hscan. cbv zeta.
+  assert (Hfin : forall vo, Permutation orders vo -> StronglySorted (fun a b => lookup sc a <= lookup sc b) vo ->
+                            ordered_check vo = true).
+  { intros vo HP Hs. eapply sorted_ordered_check; eassumption. }
+  destruct (Nat.ltb (length orders) (length alts)).
+  - exists (sort_by (lookup sc) orders). rewrite Hfin; [reflexivity|apply sort_by_perm|apply sort_by_sorted].
+  - assert (Hrange : forall o, In o orders ->
+                - Z.of_nat (length alts * length alts) <= lookup sc o <= Z.of_nat (length alts * length alts)).
+    { intros o Ho. rewrite (Hkey o Ho). pose proof (Hemb v1 o Hv1 Ho) as E.
+      rewrite Forall_forall in Hwfo.
+      pose proof (ktd_bound alts Hna v1 o (Hwfo v1 Hv1) (Hwfo o Ho)). lia. }
+    assert (Hinj : forall a b, In a orders -> In b orders -> lookup sc a = lookup sc b -> a = b).
+    { intros a b Ha Hb E. apply (embeds_inj alts orders pos Hwf Hemb a b Ha Hb).
+      rewrite (Hkey a Ha), (Hkey b Hb) in E. lia. }
+    rewrite (bucket_phase_ok (length alts) (lookup sc) orders).
+    + eexists. rewrite Hfin; [reflexivity| |].
+      * apply Permutation_sym, buckets_perm. intros o Ho. eexists. apply bucket_index_in_range. now apply Hrange.
+      * apply buckets_sorted. exact Hrange.
+    + intros o Ho. eexists. apply bucket_index_in_range. now apply Hrange.
+    + apply buckets_no_collision; assumption.
+Qed.
+
+Theorem sc_algo_complete alts orders : wf_profile alts orders -> SC alts orders ->
+  exists vo, sc_algo alts orders = Ok (Some vo).
+Proof.
+  intros Hwf Hsc. destruct (sc_embeds alts orders Hwf Hsc) as (pos & Hemb).
+  destruct orders as [|v1 [|v2 rest]]; [eexists; reflexivity|eexists; reflexivity|].
+  assert (Hne : pos v1 <> pos v2).
+  { intros E. apply (embeds_inj alts _ pos Hwf Hemb) in E; [|now left|right; now left].
+    destruct Hwf as (_ & Hno & _). inversion Hno as [|? ? H1 _]. apply H1. subst. now left. }
+  destruct (Z.lt_ge_cases (pos v1) (pos v2)) as [Hlt|Hge].
+  - eapply sc_algo_complete_oriented; eassumption.
+  - apply (sc_algo_complete_oriented alts v1 v2 rest (fun o => - pos o)); [assumption| |lia].
+    intros x y Hx Hy. rewrite (Hemb x y Hx Hy). lia.
+Qed.
+
+(* exactness of the mirrored algorithm on well-formed profiles *)
+Theorem sc_algo_correct alts orders : wf_profile alts orders ->
+  ((exists vo, sc_algo alts orders = Ok (Some vo)) <-> SC alts orders).
+Proof.
+  intros Hwf. split.
+  - intros (vo & H). eapply sc_algo_sound_SC; eassumption.
+  - now apply sc_algo_complete.
+Qed.
